@@ -41,3 +41,15 @@ Print Assumptions C03_oracle_holds_on_model.
 Print Assumptions C03_status_preserved_by_every_event.
 Print Assumptions C03_gate_refuses_without_quorum.
 Print Assumptions C03_gate_opens_with_quorum.
+
+(** histories with concurrent pairs ([Two a b]: b issued while a is in flight).  The pair rule applies its
+    refusal clause only when the first write lies inside the volume; "nobody holds wid2" presupposes write
+    ids that are fresh when issued ([fresh_wid]; [c03_pair_needs_fresh_write_ids] shows it is needed) *)
+From Jiva Require Import Ctl.Model Ctl.Corr Ctl.Oracles Ctl.Proofs Ctl.OracleProofs2 Ctl.OracleProofsX Ctl.OracleProofsX2.
+
+Theorem C03_oracle_accepts_model_traces_with_pairs : forall xs rf0 n w0, (1 <= rf0)%nat -> forallb xev_wf xs = true ->
+  hist_ok fresh_wid (init rf0 w0) (flatten xs) ->
+  walk (lift (c03_step rf0) (c03_pair rf0)) 0 (obs0 rf0 n w0) xs (trace n (init rf0 w0) xs) = None.
+Proof. exact c03_oracle_model_x. Qed.
+
+Print Assumptions C03_oracle_accepts_model_traces_with_pairs.
